@@ -128,6 +128,14 @@ fn text_probes() -> Vec<String> {
     for n in [23usize, 24, 255, 256, 65535, 65536, 65537, 70000] {
         v.push("t".repeat(n));
     }
+    // invisible / white-space / combining characters at either end (a text label is kept whatever it
+    // starts or ends with; a media type only refuses real White_Space there)
+    for c in crate::gen::EDGE_CHARS {
+        for base in ["a/b", "x", "text/plain"] {
+            v.push(format!("{}{}", c, base));
+            v.push(format!("{}{}", base, c));
+        }
+    }
     v.sort();
     v.dedup();
     v
